@@ -135,9 +135,9 @@ SPEC = Spec(
     "non-orphan user function that was already running when the last other branch parked is still executing; liveness restated as "
     "bounded progress: the execution reaches SUCCEEDED/FAILED within the scenario's invocation bound, the driver never finds it PENDING "
     "with nothing to wake it, and no invocation hangs (logical hang rule) or spins (more than 200 consecutive empty checkpoints with no "
-    "user function active and no change of the backend table). Non-trivial = a PENDING outcome was judged.",
+    "user function active and no change of the backend table); a lock-order sanitizer over the SDK's own locks (dw/lockorder.py) reports two threads taking two lock instances in opposite orders without a common gate lock, and a thread blocking on a non-reentrant lock it holds, whether or not the deadlock struck in the run. Non-trivial = a PENDING outcome was judged.",
     deciding=lambda r: (r.get("stats") or {}).get("c07_pending_outcomes", 0) > 0 or r.get("stop") in ("spin", "hang", "stuck-pending"),
-    minima={"c07_pending_outcomes": 300},
+    minima={"c07_pending_outcomes": 300, "c07_lock_acquisitions_observed": 10000},
 )
 cases = SPEC.cases
 run_case = SPEC.run_case
